@@ -25,7 +25,36 @@ def plan(features):
         s2, why = bl.edit_snapshot(r, h.snap, {"fail": True})
         h.set_sources(s2, why)
         h.build(cfg); notes.append(("post", len(h.builds) - 1))
+        # a command that DESTROYS the condition its own output check inspects: the pre-execution check passes (the
+        # condition was established by an earlier build), the command runs (its text changed), the post-execution
+        # check must fail the target; nothing is cached, dependants do not run, the next build tries again
+        chk = [i for i, n in enumerate(h.snap["nodes"]) if n["k"] == "t" and n.get("check") and n["beh"] == "n"]
+        if chk:
+            i = r.choice(chk)
+            s3 = json.loads(json.dumps(h.snap))
+            for n in s3["nodes"]:
+                if n["k"] == "t":
+                    n["outs"] = [tuple(o) for o in n["outs"]]
+            s3["nodes"][i]["beh"] = "x"; s3["nodes"][i]["salt"] = s3["nodes"][i]["salt"] + "x"
+            h.set_sources(s3, "command of %s now destroys its checked condition" % bl.label(s3["nodes"][i]))
+            h.build(cfg); notes.append(("breaks-check", len(h.builds) - 1, i))
+            h.build(cfg); notes.append(("breaks-check", len(h.builds) - 1, i))
         return notes
+    return p
+
+
+def witness_break():
+    """a <- b; a has an output check; build; a's command changes and now destroys the checked condition; build; build"""
+    def p(h, r):
+        mk = lambda beh, salt: {"nodes": [
+            {"k": "t", "pkg": "p", "name": "a", "salt": salt, "ins": [], "glob": None, "excl": [], "outs": [("file", "a.txt")], "deps": [],
+             "fp": {}, "nocache": False, "multi": False, "beh": beh, "check": True, "comment": ""},
+            {"k": "t", "pkg": "p", "name": "b", "salt": "v0", "ins": [], "glob": None, "excl": [], "outs": [("file", "b.txt")], "deps": [0],
+             "fp": {}, "nocache": False, "multi": False, "beh": "n", "check": False, "comment": ""}], "files": {}}
+        h.set_sources(mk("n", "v0")); h.build(hc.ALL_CACHE)
+        h.set_sources(mk("x", "v1"), "command of //p:a now destroys its checked condition")
+        h.build(hc.ALL_CACHE); h.build(hc.ALL_CACHE)
+        return [("post", 0), ("breaks-check", 1, 0), ("breaks-check", 2, 0)]
     return p
 
 
@@ -56,7 +85,7 @@ def timeout_plan():
 def run(out, tier):
     n = 24 if tier == "quick" else 500
     feats = dict(hc.CLEAN); feats.update({"check": True, "fail": True})
-    plans = [("witness-check", witness_check()), ("timeout", timeout_plan())] + [("checks", plan(feats))] * n
+    plans = [("witness-check", witness_check()), ("witness-break", witness_break()), ("timeout", timeout_plan())] + [("checks", plan(feats))] * n
     batch = hc.run_batch(plans, vlib.seed())
     hc.check_plan_errors(batch)
     findings = {f["class"]: f for f in vlib.known_findings("C14")}
@@ -81,12 +110,33 @@ def run(out, tier):
             if b["rc"] == 0:
                 # success => every declared output of every (selected) target exists and every check passes now
                 missing = [p for p, s in b["ws"].items() if not s.startswith("F")]
-                chk_bad = [bl.label(n) for n in cur["nodes"] if n["k"] == "t" and n.get("check")
-                           and not os.path.exists(os.path.join(h.ws, "ext", bl.ext_name(n)))] if bi == len(h.builds) - 1 else []
+                chk_bad = [bl.label(n) for n in cur["nodes"] if n["k"] == "t" and n.get("check") and bl.ext_name(n) not in b.get("ext", [])]
                 if missing:
                     hc.decide(out, "C14", findings, h, "build %d succeeded but declared outputs %s do not exist" % (bi, missing), predicted, GUARDS)
                 if chk_bad:
                     hc.decide(out, "C14", findings, h, "build %d succeeded although the output check of %s fails" % (bi, chk_bad), predicted, GUARDS)
+            if note[0] == "breaks-check":
+                n0 = cur["nodes"][note[2]]
+                lab = bl.label(n0)
+                # does anything this target transitively depends on fail by design?  then it may never run
+                up = set(); todo = list(n0["deps"])
+                while todo:
+                    d = bl.resolve(cur["nodes"], todo.pop())
+                    if d not in up:
+                        up.add(d); todo += cur["nodes"][d]["deps"]
+                blocked = any(cur["nodes"][d]["beh"] != "n" for d in up)
+                if not blocked:
+                    if b["rc"] == 0:
+                        hc.decide(out, "C14", findings, h, "build %d succeeded although the command of %s leaves its output check failing" % (bi, lab),
+                                  predicted, GUARDS)
+                    if lab not in b["starts"]:
+                        hc.decide(out, "C14", findings, h, "build %d did not (re-)execute %s whose output check fails after execution "
+                                  "(a failed target must not be cached)" % (bi, lab), predicted, GUARDS)
+                    deps_ran = [bl.label(cur["nodes"][j]) for j in hc.dependants_closure(cur, [note[2]]) - {note[2]}
+                                if cur["nodes"][j]["k"] == "t" and bl.label(cur["nodes"][j]) in b["starts"]]
+                    if deps_ran:
+                        hc.decide(out, "C14", findings, h, "dependants %s of %s ran although its output check fails after execution" % (deps_ran, lab),
+                                  predicted, GUARDS)
             if note[0] == "check-forces" and b["rc"] == 0:
                 # (a successful build resolved every selected target, so the target was either executed or served from cache)
                 lab = bl.label(cur["nodes"][note[2]])
